@@ -73,6 +73,21 @@ def append(eng, xs, x, st, node):
                 fields[n] = (Concat(seq, smt.Unit(v.t)), p)
             st.heap[xs.loc] = HRecSeq(o.cls, fields, Add(o.n, IntV(1)))
             return True
+    if isinstance(x, VTuple) and isinstance(o, HIdxList) and o.base is not None and o.base.cls in C.TUPLE_RECORDS:
+        # a tuple rebuilt from ALL the fields of one element of the base list (tuples are values: it is that element)
+        names = C.TUPLE_RECORDS[o.base.cls] or list(C.RECORDS[o.base.cls])
+        for (vb, _), loc in st.ghost.get('__views__', {}).items():
+            ov = st.heap.get(loc)
+            if vb != o.base.base or not isinstance(ov, HInst) or ov.view is None or len(names) != len(x.items):
+                continue
+
+            def same(a, b):
+                if isinstance(a, VRef) or isinstance(b, VRef):
+                    return isinstance(a, VRef) and isinstance(b, VRef) and a.loc == b.loc
+                return hasattr(a, 't') and hasattr(b, 't') and a.t.s == b.t.s
+            if all(same(ov.fields.get(n), v) for n, v in zip(names, x.items)):
+                st.heap[xs.loc] = HIdxList(o.base, Concat(o.idx, smt.Unit(ov.view[1])))
+                return True
     if isinstance(x, VRef):
         ox = st.heap.get(x.loc)
         if isinstance(ox, HInst):
